@@ -1,6 +1,14 @@
 package route
 
-import "github.com/Dieterbe/go-metrics"
+import (
+	"math"
+	"time"
+
+	"github.com/Dieterbe/go-metrics"
+)
+
+// maxFlushMaxWait is the largest flushMaxWait setting (in ms) that still fits in a time.Duration
+const maxFlushMaxWait = math.MaxInt64 / int64(time.Millisecond)
 
 // DispatchNonBlocking will dispatch in to buf.
 // if buf is full, will discard the data
